@@ -100,7 +100,9 @@ def check_config(cx, rep, facts, cfg, want_borsh):
             r = impls_for(facts, p, rcanon)
             inst = '%s:%s[%s]' % (p, lib, cfg)
             ok = len(w) == 1 and len(r) == 1
-            derived = ok and w[0]['from_derive'] and r[0]['from_derive'] and w[0]['macro'] == wmac and r[0]['macro'] == rmac
+            # the derive may be named through an import (`derive(BorshSerialize)`) or by path (`derive(borsh::BorshSerialize)`)
+            last = lambda m_: (m_ or '').split('::')[-1]
+            derived = ok and w[0]['from_derive'] and r[0]['from_derive'] and last(w[0]['macro']) == last(wmac) and last(r[0]['macro']) == last(rmac)
             detail = 'writer impls %d, reader impls %d' % (len(w), len(r))
             if ok and not derived:
                 detail = 'writer from %s, reader from %s (expected both derived on the item)' % (
